@@ -217,11 +217,34 @@ func c04Judge(hist []string, o *c04Obs) [][2]string {
 		}
 		count[e]++
 	}
-	for e, n := range count {
-		if n > 1 {
-			out = append(out, [2]string{"fired-twice-without-exchange", fmt.Sprintf("history [%s]: OnNegotiationNeeded ran %d times between completed exchanges (epoch %d): %+v", h, n, e, o.Fires)})
+	_ = count
+	// two invocations in one epoch are a violation unless the need can have been withdrawn in between
+	// (RemoveTrack can make the pending negotiation unnecessary; the flag is then cleared and a later change
+	// legitimately raises the event again: "once per needed negotiation")
+	for a := 0; a < len(o.Fires); a++ {
+		for b := a + 1; b < len(o.Fires); b++ {
+			fa, fb := o.Fires[a], o.Fires[b]
+			ea, eb := 0, 0
+			if fa.AfterStep >= 0 && fa.AfterStep < len(stepEpoch) {
+				ea = stepEpoch[fa.AfterStep]
+			}
+			if fb.AfterStep >= 0 && fb.AfterStep < len(stepEpoch) {
+				eb = stepEpoch[fb.AfterStep]
+			}
+			if ea != eb {
+				continue
+			}
+			withdrawn := false
+			for k := fa.AfterStep + 1; k <= fb.AfterStep && k < len(o.Steps); k++ {
+				if k >= 0 && o.Steps[k].Op == "RT" {
+					withdrawn = true
+				}
+			}
+			if !withdrawn {
+				out = append(out, [2]string{"fired-twice-without-exchange", fmt.Sprintf("history [%s]: OnNegotiationNeeded ran after call %d and again after call %d with no completed exchange (and no RemoveTrack) in between: %+v", h, fa.AfterStep, fb.AfterStep, o.Fires)})
 
-			break
+				return out
+			}
 		}
 	}
 	// 3. liveness: after AddTrack / AddTransceiver / first CreateDataChannel it fires once the connection is stable
@@ -238,8 +261,10 @@ func c04Judge(hist []string, o *c04Obs) [][2]string {
 		j := -1
 		silent := false
 		for k := i; k < len(o.Steps); k++ {
-			if k > i && (o.Steps[k].Created || o.Steps[k].Op == "CL") {
-				silent = true // an offer/answer created after the change may already carry it; closing ends the obligation
+			if k > i && (o.Steps[k].Created || o.Steps[k].Op == "CL" || o.Steps[k].Op == "RT") {
+				// an offer/answer created after the change may already carry it; closing ends the obligation;
+				// a RemoveTrack may undo the change so that no negotiation is needed any more
+				silent = true
 
 				break
 			}
@@ -292,7 +317,7 @@ func TestVerifC04(t *testing.T) {
 	defer c.Finish(t)
 	vsched.ICEMode.Store(vsched.ICEFailFast)
 	vpPool(t)
-	depth := c.Pick(4, 5)
+	depth := c.Pick(4, 6)
 	c.Rule(fmt.Sprintf("the full tree of call histories to depth %d over %v (AddTrack audio/video, RemoveTrack, AddTransceiverFromKind, CreateDataChannel, the four halves of local- and peer-initiated offer/answer exchanges with a live peer, a rejected SetRemoteDescription, Close; calls not applicable in the current state prune the branch); each history on fresh real PeerConnections under the controlled scheduler's default schedule with quiescence after every call; states = (signaling state, pending-fire, counts) reached; distinct = (history shape, fire pattern)", depth, c04Alphabet))
 	c.Assume("ICE connectivity fails at once (seam), so queued transport work finishes; the peer is a real PeerConnection driven in lock-step")
 	if raw, ok := c.ReplayCase(); ok {
